@@ -1,10 +1,270 @@
-//! C13 wire part (filled in with the wire engine).
+//! C13 wire part: duplicate / retransmitted WRQs for one name against the real tftpd.
+
 use crate::common::*;
+use crate::viol;
+use crate::wclient::{self, Negotiated, Start, UploadEnd};
+use crate::wire::{self, Client, Server, StartError};
+use proptest::prelude::*;
+use serde::{Deserialize, Serialize};
 use serde_json::Value;
+use std::path::Path;
+use std::time::Duration;
 
-pub fn run_wire(_ctx: &Ctx) {}
+#[derive(Clone, Debug, Serialize, Deserialize)]
+pub enum Act {
+    /// endpoint j sends a WRQ for the shared name (timeout=1 so that stale workers give up after ~6 s)
+    Wrq(u8),
+    /// endpoint j sends the first k blocks of its most recently accepted upload and then goes silent
+    Partial(u8, u8),
+    /// short pause in ms
+    Pause(u16),
+}
 
-pub fn replay(ctx: &Ctx, part: &str, _case: &Value) -> bool {
-    ctx.say(&format!("unknown part {}", part));
-    std::process::exit(2)
+#[derive(Clone, Debug, Serialize, Deserialize)]
+pub struct Case {
+    pub overwrite: bool,
+    pub single: bool,
+    pub keep: bool,
+    pub acts: Vec<Act>,
+    pub len: usize,
+    pub seed: u64,
+}
+
+pub const KNOWN_SIG: &str = "stale-upload-worker-cleanup";
+
+fn run_case(dir: &Path, c: &Case) -> Result<Vec<&'static str>, (String, String)> {
+    let root = dir.join("c13w");
+    let _ = std::fs::remove_dir_all(&root);
+    let recv = root.join("recv");
+    std::fs::create_dir_all(&recv).unwrap();
+    let mut args = vec![wire::s("-d"), recv.to_string_lossy().to_string()];
+    if c.overwrite {
+        args.push(wire::s("--overwrite"));
+    }
+    if c.single {
+        args.push(wire::s("-s"));
+    }
+    if c.keep {
+        args.push(wire::s("--keep-on-error"));
+    }
+    let mut srv = match Server::start(&args, &root) {
+        Ok(s) => s,
+        Err(StartError::Exited(code, e)) => return Err(("harness".into(), format!("tftpd exited at start-up with {}: {}", code, e))),
+        Err(StartError::Harness(e)) => return Err(("harness".into(), e)),
+    };
+    let name = "x.bin";
+    let opts = vec![("timeout".to_string(), "1".to_string()), ("blksize".to_string(), "64".to_string())];
+    let endpoints: Vec<Client> = (0..3).map(|_| Client::new()).collect();
+    // accepted uploads in acceptance order: (endpoint, negotiated, content, blocks already sent)
+    let mut accepted: Vec<(usize, Negotiated, Vec<u8>, usize)> = vec![];
+    let mut classes = vec![];
+    for (i, a) in c.acts.iter().enumerate() {
+        match a {
+            Act::Wrq(j) => {
+                let j = *j as usize % 3;
+                // drop stale datagrams of an earlier transfer of this endpoint
+                let _ = endpoints[j].drain(Duration::from_millis(1));
+                match wclient::start(&endpoints[j], srv.addr, true, name, &opts, Duration::from_millis(1500)) {
+                    Start::Accepted { neg, .. } => {
+                        let data = content(c.seed ^ (i as u64 * 31 + 5), c.len + i);
+                        accepted.push((j, neg, data, 0));
+                    }
+                    Start::Refused { code, .. } => {
+                        if code == 6 {
+                            classes.push("duplicate-wrq-refused-exists");
+                        }
+                    }
+                    Start::Silent => {}
+                    Start::Weird(w) => return Err(("bad-reply".into(), format!("WRQ #{}: {}", i, w))),
+                }
+            }
+            Act::Partial(j, k) => {
+                let j = *j as usize % 3;
+                if let Some(pos) = accepted.iter().rposition(|x| x.0 == j) {
+                    let (_, neg, data, sent) = &mut accepted[pos];
+                    if *sent == 0 {
+                        let nb = data.len() / neg.blk + 1;
+                        let k = (*k as usize).min(nb.saturating_sub(1));
+                        for b in 1..=k {
+                            let s = (b - 1) * neg.blk;
+                            endpoints[j].send(&crate::refcodec::data(b as u16, &data[s..s + neg.blk]), neg.peer);
+                            let _ = endpoints[j].recv(Duration::from_millis(300));
+                        }
+                        *sent = k;
+                    }
+                }
+            }
+            Act::Pause(ms) => std::thread::sleep(Duration::from_millis(*ms as u64 % 400)),
+        }
+    }
+    if accepted.is_empty() {
+        drop(srv);
+        let _ = std::fs::remove_dir_all(&root);
+        return Ok(vec!["nothing-accepted"]);
+    }
+    if accepted.len() >= 2 {
+        classes.push("two-or-more-accepted-for-one-name");
+    }
+    // complete the most recently accepted upload
+    let (j, neg, data, sent) = accepted.last().unwrap().clone();
+    let _ = endpoints[j].drain(Duration::from_millis(1));
+    let mut srcs = vec![];
+    // blocks 1..sent were acknowledged already; continue after them
+    let rest_from = sent * neg.blk;
+    let cont = Negotiated { ..neg.clone() };
+    let res = if sent == 0 {
+        wclient::upload(&endpoints[j], &cont, &data, None, &mut srcs)
+    } else {
+        // resend everything: the server ignores blocks it has and re-acknowledges; simplest conformant continuation is block sent+1..
+        upload_from(&endpoints[j], &cont, &data, sent + 1, &mut srcs)
+    };
+    let _ = rest_from;
+    match res {
+        Ok(UploadEnd::Completed) => {}
+        Ok(UploadEnd::Aborted(_)) => unreachable!(),
+        Err(e) => {
+            // the latest accepted upload could not complete: the second sentence of the property does not apply
+            drop(srv);
+            let _ = std::fs::remove_dir_all(&root);
+            let _ = e;
+            return Ok(vec!["latest-upload-did-not-complete"]);
+        }
+    }
+    classes.push("latest-upload-completed");
+    let at_completion = std::fs::read(recv.join(name)).ok();
+    if at_completion.as_deref() != Some(&data[..]) {
+        return Err(("content-at-completion".into(), format!("the most recently accepted upload completed ({} bytes) but the file holds {:?} bytes at that moment", data.len(), at_completion.map(|f| f.len()))));
+    }
+    let stale = accepted.len() - 1;
+    if stale > 0 {
+        // every stale worker gives up after 6 receive timeouts of 1 s
+        std::thread::sleep(Duration::from_millis(7600));
+        classes.push("waited-for-stale-workers");
+    } else {
+        std::thread::sleep(Duration::from_millis(50));
+    }
+    let fin = std::fs::read(recv.join(name)).ok();
+    let status = srv.exit_status();
+    let tail = srv.stderr_tail();
+    drop(srv);
+    let _ = std::fs::remove_dir_all(&root);
+    if let Some(st) = status {
+        return Err(("server-terminated".into(), format!("tftpd exited ({}): {}", st, tail)));
+    }
+    match fin {
+        Some(f) if f == data => Ok(classes),
+        Some(f) => Err(("completed-upload-altered".into(), format!("the completed upload ({} bytes) was altered afterwards: the file now holds {} bytes; {} stale accepted upload(s) for the same name", data.len(), f.len(), stale))),
+        None => {
+            if !c.keep && stale > 0 {
+                Err((KNOWN_SIG.into(), format!("the most recently accepted upload of {} completed ({} bytes) and was removed again when {} earlier accepted upload(s) of the same name timed out (clean-on-error cleanup of the stale worker); overwrite={} single={}; server stderr: {}", name, data.len(), stale, c.overwrite, c.single, tail)))
+            } else {
+                Err(("completed-upload-removed".into(), format!("the completed upload was removed (keep-on-error={}, stale uploads {})", c.keep, stale)))
+            }
+        }
+    }
+}
+
+fn upload_from(cl: &Client, neg: &Negotiated, data: &[u8], first: usize, srcs: &mut Vec<std::net::SocketAddr>) -> Result<UploadEnd, String> {
+    // lock-step continuation (windowsize is 1: no windowsize option was sent)
+    let n_blocks = data.len() / neg.blk + 1;
+    for abs in first..=n_blocks {
+        let s = (abs - 1) * neg.blk;
+        let e = (s + neg.blk).min(data.len());
+        let mut ok = false;
+        for _try in 0..3 {
+            cl.send(&crate::refcodec::data(abs as u16, &data[s..e]), neg.peer);
+            let t0 = std::time::Instant::now();
+            while t0.elapsed() < Duration::from_millis(1500) {
+                if let Some((b, from)) = cl.recv(Duration::from_millis(300)) {
+                    if let crate::refcodec::RDec::Ok(crate::refcodec::RPacket::Ack(k)) = crate::refcodec::decode(&b) {
+                        if k == abs as u16 {
+                            srcs.push(from);
+                            ok = true;
+                            break;
+                        }
+                    }
+                }
+            }
+            if ok {
+                break;
+            }
+        }
+        if !ok {
+            return Err(format!("no ACK {}", abs));
+        }
+    }
+    Ok(UploadEnd::Completed)
+}
+
+pub fn judge(dir: &Path, c: &Case, obs: &mut Obs) -> Judge {
+    obs.class(if c.overwrite { "overwrite" } else { "no-overwrite" });
+    obs.class(if c.single { "single-port" } else { "multi-port" });
+    obs.class_if(c.keep, "keep-on-error");
+    let wrqs = c.acts.iter().filter(|a| matches!(a, Act::Wrq(_))).count();
+    obs.class_if(wrqs >= 2, "duplicate-wrq-history");
+    match run_case(dir, c) {
+        Ok(classes) => {
+            obs.nontrivial = classes.contains(&"waited-for-stale-workers") || classes.contains(&"duplicate-wrq-refused-exists");
+            for k in classes {
+                obs.class(k);
+            }
+            Ok(())
+        }
+        Err((sig, d)) if sig == "harness" => {
+            obs.inconclusive = Some(d);
+            Ok(())
+        }
+        Err((sig, d)) => {
+            obs.nontrivial = true;
+            viol!(sig, "{} | acts {:?}", d, c.acts)
+        }
+    }
+}
+
+pub fn strategy() -> BoxedStrategy<Case> {
+    let act = prop_oneof![
+        5 => (0u8..3).prop_map(Act::Wrq),
+        2 => ((0u8..3), (0u8..4)).prop_map(|(j, k)| Act::Partial(j, k)),
+        1 => (0u16..300).prop_map(Act::Pause),
+    ];
+    (prop_oneof![3 => Just(true), 1 => Just(false)], any::<bool>(), prop_oneof![4 => Just(false), 1 => Just(true)], proptest::collection::vec(act, 1..6), 0usize..400, any::<u64>())
+        .prop_map(|(overwrite, single, keep, mut acts, len, seed)| {
+            if !acts.iter().any(|a| matches!(a, Act::Wrq(_))) {
+                acts.insert(0, Act::Wrq(0));
+            }
+            Case { overwrite, single, keep, acts, len, seed }
+        })
+        .boxed()
+}
+
+fn fixed_cases() -> Vec<Case> {
+    let mut out = vec![];
+    for overwrite in [true, false] {
+        for single in [false, true] {
+            for keep in [false, true] {
+                // a retransmitted WRQ from the same endpoint, and a second client for the same name
+                out.push(Case { overwrite, single, keep, acts: vec![Act::Wrq(0), Act::Wrq(0)], len: 100, seed: 1 });
+                out.push(Case { overwrite, single, keep, acts: vec![Act::Wrq(0), Act::Partial(0, 1), Act::Wrq(1)], len: 200, seed: 2 });
+            }
+        }
+    }
+    out
+}
+
+pub fn run_wire(ctx: &Ctx) {
+    let dirs = DirPool::new(ctx, "c13w");
+    let fixed = fixed_cases();
+    enumerate(ctx, "wire-duplicate-wrq-grid", &fixed, false, |c, o| dirs.with(|d| judge(d, c, o)));
+    explore_n(ctx, "wire-duplicate-wrq", ctx.tier.pick(32, 1200), shards(), 6, strategy, |c: &Case, o| dirs.with(|d| judge(d, c, o)));
+}
+
+pub fn replay(ctx: &Ctx, part: &str, case: &Value) -> bool {
+    let dirs = DirPool::new(ctx, "c13w");
+    match part {
+        "wire-duplicate-wrq" | "wire-duplicate-wrq-grid" => replay_one(ctx, part, case, |c: &Case, o| dirs.with(|d| judge(d, c, o))),
+        _ => {
+            ctx.say(&format!("unknown part {}", part));
+            std::process::exit(2)
+        }
+    }
 }
